@@ -148,7 +148,7 @@ func init() {
 			// the named functions of the reviewed tree (tools/gen_counts.py freezes them into funcs_table.go)
 			for _, fn := range P.RepoFuncs {
 				if fn.Parent() == nil {
-					fmt.Println("FUNC", FuncName(fn))
+					fmt.Printf("FUNC %s\t%s\n", FuncName(fn), short(fn.Signature.String()))
 				}
 			}
 		}
